@@ -151,6 +151,24 @@ class Ctx:
     def note(self, s):
         self.notes.append(s)
 
+    def guard(self, rid, fn, *args):
+        """Run one sub-rule; if the rule's recogniser cannot cope with the shape of the code
+        (exception), fail closed with an explicit 'unanalysable' violation instead of crashing."""
+        try:
+            return fn(*args)
+        except Infra:
+            raise
+        except Exception as e:
+            tb = traceback.format_exc().strip().splitlines()
+            where = [l.strip() for l in tb if l.strip().startswith('File')][-1:] or ['?']
+            if rid not in self.rules:
+                self.rule(rid, 'sub-rule must be able to analyse the anchored code')
+            self.violation(rid, 'unanalysable:%s' % fn.__name__,
+                           'unrecognised idiom: sub-rule %s could not analyse the current shape of the code (%s: %s at %s); '
+                           'the clause it decides is therefore NOT established on this tree'
+                           % (fn.__name__, type(e).__name__, e, where[0]), fn=fn.__name__)
+            return None
+
 
 def load_known(pid):
     known = {}
